@@ -127,7 +127,7 @@ def render_type(t: dict) -> str:
     if t['kind'] == 'union':
         lines.append('@union')
     lines += render_fields(t['fields'], 'f')
-    lines.append('@extent 1024 * 8' if t['kind'] == 'delimited' else '@sealed')
+    lines.append('@extent 65536 * 8' if t['kind'] == 'delimited' else '@sealed')
     if t['kind'] == 'service':
         lines.append('---')
         lines += render_fields(t['resp'], 'r')
